@@ -661,6 +661,12 @@ func (st *Stack) compactRange(first, last int, expiration *LogExpirationConfig) 
 
 	defer lockFile.Close()
 
+	// The lock was released while merging: make sure nobody changed
+	// the stack in the meantime, or we would overwrite their commit.
+	if ok, err := st.UpToDate(); !ok || err != nil {
+		return false, err
+	}
+
 	fn := formatName(
 		st.stack[first].MinUpdateIndex(),
 		st.stack[last].MaxUpdateIndex())
